@@ -82,3 +82,20 @@ package socks5
 //@                          when e == nil && le == nil && we == nil && sc2 == sc && isptr(sc2, socksConn) && asptr(sc2, socksConn).conn == conn && re == nil && rp.Ver == 5 && rp.Method == 0 && ret1 == nil
 //@                            && isptr(ret0, ScanResult) && asptr(ret0, ScanResult).IP == ipstr && asptr(ret0, ScanResult).Port == r.DstPort
 //@                            && asptr(ret0, ScanResult).Version == 5 && asptr(ret0, ScanResult).ScanType == "socks" -> exit
+
+// C09: constructor: default timeouts first, then the options in order; the dial option bounds the connect, the data
+// option the reads and writes
+//@ func WithDialTimeout$1
+//@   props C09
+//@   modifies s.dialer.Timeout
+//@   ensures s.dialer.Timeout == timeout
+//@ func WithDataTimeout$1
+//@   props C09
+//@   modifies s.dataTimeout
+//@   ensures s.dataTimeout == timeout
+//@ func NewScanner
+//@   props C09
+//@   observe o
+//@   entry row init:  [] when s.dialer != nil && fresh(s.dialer) -> loop 0
+//@   loop 0 row apply: [call o(s)] -> continue
+//@   loop 0 row done:  [] when ret == s -> exit
